@@ -316,14 +316,14 @@ class Walker:
                 nk = repr(norm(op))
                 dec = env["$dec"]
                 if nk in dec:
-                    m = [b2 for v, b2 in real if v == dec[nk]]
-                    if m:
+                    m = [b2 for v, b2 in real if _canon_edge(op, v) == dec[nk]]
+                    if len(m) == 1:
                         bb = m[0]
                         continue
                 for v, b2 in real:
                     e2 = dict(env)
                     e2["$dec"] = dict(dec)
-                    e2["$dec"][nk] = v
+                    e2["$dec"][nk] = _canon_edge(op, v)
                     self._explore(body, b2, e2, events + [("atom", op, v)], stack, depth, cont)
                 return
             self._finish(events, ("diverge", "term:" + k), None, env)
@@ -349,6 +349,24 @@ class Walker:
             if int(v) == val:
                 return b2
         return t["otherwise"]
+
+
+def _canon_edge(op, v):
+    """canonical meaning of taking edge `v` of a switch on `op`: variant name, bool, or the raw value"""
+    if op[0] == "discr" and op[2]:
+        if isinstance(v, int):
+            return ("variant", dict(op[2]).get(v, v))
+        rest = [n for k, n in op[2] if k not in v[1]]
+        if len(rest) == 1:
+            return ("variant", rest[0])
+        return ("notin", tuple(v[1]))
+    if isinstance(v, int):
+        return ("val", v) if v not in (0, 1) else ("bool", bool(v))
+    if v[1] == [0]:
+        return ("bool", True)
+    if v[1] == [1]:
+        return ("bool", False)
+    return ("notin", tuple(v[1]))
 
 
 def _prefix(a, b):
@@ -403,6 +421,8 @@ def model_call(info, args):
         x = args[0]
         if x[0] == "residual":
             return ("errprop", x[1])
+        if x[0] == "agg" and x[2] == "core::result::Result" and x[3] == "Err":
+            return x
     if bk in ("IntoIterator::into_iter",) and args and "Iterator" not in k.split(" as ")[0]:
         return None
     if k in ("<T as From<T>>::from", "<T as Into<U>>::into") and args:
